@@ -71,6 +71,10 @@ func MakeConfig(profile, tier string, seed int64, idx int) Config {
 		if idx%2 == 1 {
 			cfg.ErrAckStep = 12 + r.Intn(25)
 		}
+		if idx%4 == 2 {
+			cfg.LateHandshakeStop = true
+			cfg.LiveConsumers = 3
+		}
 	case "rewards":
 		cfg.LiveConsumers = 2
 		cfg.HandshakeDelayMax = 2
@@ -332,6 +336,12 @@ func (w *World) MainLoop() {
 		if !solo {
 			if w.stepExtra != nil {
 				specs = append(specs, w.stepExtra()...)
+			}
+			for _, ci := range w.Shadow.Consumers {
+				if ci.RemoveAt > 0 && ci.RemoveAt == w.Step && ci.Owner != nil && w.Phase(ci.ID) == phLaunch {
+					w.Op("remove-consumer %s by its owner before its CCV handshake", ci.ID)
+					specs = append(specs, TxSpec{Signer: ci.Owner, Msgs: []sdk.Msg{&providertypes.MsgRemoveConsumer{ConsumerId: ci.ID, Owner: ci.Owner.Addr.String()}}, Tag: "remove-consumer"})
+				}
 			}
 		}
 		w.ProviderStep(specs, solo, w.providerOpts())
